@@ -116,6 +116,35 @@ CHECKS.update({
         ref="§5 C19"),
 })
 
+CHECKS.update({
+    "C06": dict(
+        text="rebalance_eq + C06 theorems: the result row of a reaction is runIn of that row alone for any surrounding rows, position "
+        "and batch size; permuting inputs permutes outputs; statistics of ANY partition into batches sum to the unbatched statistics "
+        "and are order independent. Worker counts do not occur in the model; the real id/index plumbing is tied by tracing the same "
+        "reactions alone, in one batch and under seeded permutations x batch sizes x worker counts 1..16 and comparing every row and "
+        "the stats dict.",
+        note=ROWNOTE + "load-dependent MCS timeouts are oracle non-determinism (theorems hold for every oracle).",
+        technique="Lean 4 proof (list/statistics algebra) + differential layout runs with stage-by-stage correspondence",
+        ref="§5 C06"),
+    "C11": dict(
+        text="A fault pattern is another Oracle: C11_faults_are_local (rows at other positions are exactly their fault-free results, no row "
+        "lost) and C11_faulted_row_safe (affected row solved-and-balanced or declined unchanged with a reason) hold for every oracle, "
+        "i.e. every subset of timed-out / failed search and fragment-analysis jobs incl. zombie writes. Real faults are injected at the "
+        "two guarded functions (raise, or sleep past the 2 s wait then finish) and each faulted run is compared with the model and with "
+        "the fault-free run.",
+        note=ROWNOTE + "real preemption under CPU load cannot be exhibited by the model; injection only in-process (n_jobs=1).",
+        technique="Lean 4 proof (for-all-oracles safety + locality) + fault-injection correspondence",
+        ref="§5 C11"),
+    "C13": dict(
+        text="Threshold occurs only in the last stage (C13_threshold_only_in_last_stage): confidence independent of t, MCS rows solved iff "
+        "confidence >= t (exact comparison), demoted rows flagged with an issue, all other rows identical for every t, monotone. "
+        "Confidences/thresholds enter the model as exact binary fractions; runs under {0,0.5,1,c-0.001,c,c+0.001} are traced and "
+        "compared.",
+        note=ROWNOTE + "float32-vs-float comparison is exact comparison of dyadic rationals (NumPy 1.26 compares in float64).",
+        technique="Lean 4 proof (structural independence, case analysis) + differential threshold runs",
+        ref="§5 C13"),
+})
+
 NOT_YET = "check not built yet in this session (model layer pending); see DESIGN.md §11 build order"
 
 
